@@ -1,0 +1,10 @@
+//go:build verif
+
+package utils
+
+import db "github.com/tendermint/tm-db"
+
+// VerifNewStorage builds a Storage over caller-supplied DB handles.
+func VerifNewStorage(home, config string, eventDB, stateDB, snapshotDB db.DB) *Storage {
+	return &Storage{eventDB: eventDB, stateDB: stateDB, snapshotDB: snapshotDB, minterConfig: config, minterHome: home}
+}
